@@ -247,6 +247,9 @@ class Normalizer:
                 return self.get(args[0], args[1])
             if path == GET and len(args) == 2:
                 return self.get(args[0], args[1])
+            if l == "mk_constant" and len(args) == 1 and args[0][0] in ("bin", "not", "ite", "matches") and "HctlTreeNode" in path:
+                # a node built from a truth value that is computed: the node of each case
+                return self.rewrite(("ite", args[0], ("call", path, (("lit", True),)), ("call", path, (("lit", False),))))
             if l == "then_some" and len(args) == 2 and "bool" in path:
                 # c.then_some(v)  ==  if c { Some(v) } else { None }
                 return self.rewrite(("ite", args[0], ("ctor", SOME, (args[1],)), ("ctor", "std::prelude::v1::None", ())))
@@ -872,6 +875,21 @@ class Normalizer:
                 return self.proj(b, variant, idx)
             if other(b) and not other(a):
                 return self.proj(a, variant, idx)
+        if base[0] == "ite" and last(variant) in ("Some", "Ok", "Err") and idx == 0 and self.is_variant_tree(base) and \
+                any(y[0] == "ite" for y in (base[2], base[3])):
+            # a nested case split over constructors: the payload of the cases that are of this variant (the others cannot be the value)
+            def payload(y):
+                if y[0] == "ite":
+                    pa, pb = payload(y[2]), payload(y[3])
+                    if pa is None:
+                        return pb
+                    if pb is None:
+                        return pa
+                    return self.rewrite(("ite", y[1], pa, pb))
+                return y[2][0] if last(y[1]) == last(variant) and y[2] else None
+            pv = payload(base)
+            if pv is not None:
+                return pv
         if base[0] == "ite" and last(variant) in ("Some", "Ok", "Err", "None"):
             # the payload of variant V of `if c { Other(..) } else { x }` can only come from x
             a, b = base[2], base[3]
@@ -962,6 +980,19 @@ class Normalizer:
                     # `Some(0) => ..`: the value is Some and its payload is the literal (earlier arms of other variants cannot interfere)
                     t = self.rewrite(("matches", scrut, d))
                     out.append(("if", t, c[3], c[4] if len(c) > 4 else None))
+                elif d[0] == "slice" and not (len(c) > 7 and c[7]) and all(isinstance(d_, tuple) and d_ and d_[0] in ("slice", "wild") for d_ in (c[5] if len(c) > 5 and c[5] else ())):
+                    # the shape of a slice (`let [token] = tokens else ..`, `match tokens { [] => .., [t] => .. }`) is a condition on its length
+                    t = self.rewrite(("matches", scrut, d))
+                    if t[0] == "matches" and t[1] == scrut:
+                        out.append(("match", scrut) + tuple(c[2:]))
+                    else:
+                        if not (t[0] == "lit" and isinstance(t[1], bool) and t[1] == bool(c[3])):
+                            out.append(("if", t, c[3], c[4] if len(c) > 4 else None))
+                        if c[3] and len(c) > 5 and c[5]:
+                            for d_ in c[5]:
+                                t2 = ("lit", True) if d_[0] == "wild" else self.rewrite(("matches", scrut, d_))
+                                if not (t2[0] == "lit" and t2[1] is False) and not (t2[0] == "matches" and t2[1] == scrut):
+                                    out.append(("if", t2, False, c[4] if len(c) > 4 else None))
                 else:
                     c2 = tuple(c[2:])
                     if len(c) > 7 and c[7]:
